@@ -1,6 +1,8 @@
 import Proofs.Lemmas.Server
 import Proofs.Lemmas.ClientInv
 import Proofs.Props.C10
+import Proofs.Lemmas.IdAlloc
+import Proofs.Lemmas.LockTable
 /-!
   C08 — stream ids unique and increasing; one RPC, one handler invocation
   (server side: id validation and dispatch; the client's allocation is in
@@ -200,6 +202,41 @@ theorem C08_client_new_stream_first (cfg : CCfg) (c : Cli α) (cs ss : Bool) (me
     (∀ f ∈ (c.newStream cfg cs ss method md timeout cancelled).2.1.frames, f.1 = sid) :=
   let r := Proofs.ClientInv.client_newStream_ok cfg c cs ss method md timeout cancelled sid h hlt h0
   ⟨r.1, r.2.1, r.2.2.1⟩
+
+/-! ### concurrent callers (L-atomic model `TunnelModel/IdAlloc.lean`) -/
+
+open TunnelModel.IdAlloc in
+/-- **However many goroutines start RPCs concurrently, and however their steps
+    interleave, the ids reach the wire in strictly increasing order** (hence
+    distinct): `streamCreation` is held from before the id is taken until the
+    `new_stream` frame has been handed to the carrier.  `n` goroutines, any
+    schedule of lock / allocate (possibly failing after the increment) / send /
+    unlock actions of any length. -/
+theorem C08_concurrent_ids_increasing (n : Nat) (as : List Act) {s : St}
+    (hr : run true (init n) as = some s) : s.wire.Pairwise (· < ·) ∧ s.wire.Nodup :=
+  ⟨Proofs.IdAlloc.wire_increasing n as hr, Proofs.IdAlloc.wire_nodup n as hr⟩
+
+open TunnelModel.IdAlloc in
+/-- an id that has been allocated but not yet sent is larger than everything on the wire -/
+theorem C08_allocated_is_fresh (n : Nat) (as : List Act) {s : St} (hr : run true (init n) as = some s)
+    {g id : Nat} (hg : s.pcs[g]? = some (Pc.allocated id)) : ∀ x ∈ s.wire, x < id :=
+  Proofs.IdAlloc.allocated_is_fresh n as hr hg
+
+open TunnelModel.IdAlloc in
+/-- **The lock is what makes it so**: with `streamCreation` not spanning
+    allocation and send, two goroutines emit their frames out of order. -/
+theorem C08_unguarded_out_of_order :
+    (run false (init 2) [.lock 0, .alloc 0 true, .lock 1, .alloc 1 true, .send 1, .send 0]).map (·.wire) = some [2, 1] :=
+  Proofs.IdAlloc.faulty_not_increasing
+
+/-- **Code-level premise of the model** (regenerated from the sources on every
+    run): in `newStream` the carrier `Send` of the `new_stream` frame is made
+    holding `streamCreation`, and the only write of `lastStreamID` is made
+    holding both `streamCreation` and `mu`; both rows exist. -/
+theorem C08_allocation_and_send_under_streamCreation :
+    Proofs.C15.idOrderViolations TunnelModel.Generated.accessTable = [] ∧
+    (Proofs.C15.newStreamSends TunnelModel.Generated.accessTable).length = 1 ∧
+    (Proofs.C15.idWrites TunnelModel.Generated.accessTable).length = 1 := by decide +kernel
 
 -- non-vacuity: "/v.S/BD" dispatches to the stream descriptor named "BD", "v.S/U" to the unary one
 example :
